@@ -1,6 +1,7 @@
 #!/bin/bash
 # confirm_seed.sh <seed_out_dir> <id> : confirm a seeded change in a scratch worktree of /repo (outside /repo and /verif):
 # it applies, compiles, the existing suite passes, the demonstration fails with it and passes without it.
+# run.sh is called without arguments: every demonstration defaults to the tree two levels above its own directory.
 # On success the material is copied to /verif/seeded/<id>/ with a confirmation record.
 set -u
 SRC=$1; ID=$2
@@ -16,10 +17,10 @@ if ! git apply --check "$SRC/patch.diff"; then res "patch-does-not-apply"; git -
 cmake -G Ninja -S . -B _build -DCMAKE_BUILD_TYPE=Release >/dev/null && cmake --build _build -j8 >/dev/null || { res "pristine-build-failed"; exit 1; }
 mkdir -p _seed_out && cp -r "$SRC" _seed_out/x
 export ROOT="$WT" LIBDIR="$WT/_build/lib" TREE="$WT"
-( cd _seed_out/x && bash ./run.sh "$WT" ) >/tmp/confirm_$ID.pristine.txt 2>&1; P=$?
+( cd _seed_out/x && bash ./run.sh ) >/tmp/confirm_$ID.pristine.txt 2>&1; P=$?
 git apply "$SRC/patch.diff"; find lib -name "*.asm" -exec touch {} +   # ninja does not track nasm %include dependencies
 cmake --build _build -j8 >/dev/null || { res "mutant-build-failed"; git -C /repo worktree remove --force "$WT"; exit 1; }
-( cd _seed_out/x && bash ./run.sh "$WT" ) >/tmp/confirm_$ID.mutant.txt 2>&1; M=$?
+( cd _seed_out/x && bash ./run.sh ) >/tmp/confirm_$ID.mutant.txt 2>&1; M=$?
 ctest --test-dir _build -j8 --timeout 1800 >/tmp/confirm_$ID.ctest.txt 2>&1; T=$?
 SUM=$(grep "tests passed" /tmp/confirm_$ID.ctest.txt | tail -1)
 res "demo_pristine_rc=$P demo_mutant_rc=$M ctest_rc=$T :: $SUM"
